@@ -69,6 +69,7 @@ def run(ctx):
                 tofl = lambda x: float(np.asarray(tl.tolist(x)))
                 t_i = tofl(t); p_i = [tofl(clsb), tofl(clb), tofl(cls)]
                 exp_i = [[tofl(x) for x in row] for row in (esb, eb, es)]
+                ets_i = [tofl(b.expected_value(N)) for N in [2, 1, 0, -1, -2]]       # what the implementation's background distribution expects
                 rep = lean.ok({'op': 'asym', 'ts': ts, 'clipped': base == 'clipped_normal', 'q': f2b(q), 'qA': f2b(qA)})
                 ctx.count()
                 ctx.tally('case', f"{ts}/{base}/{'q=0' if q == 0 else 'q<=qA' if q <= qA else 'q>qA'}")
@@ -114,11 +115,17 @@ def run(ctx):
                         if base == 'normal' or -sA < N:
                             if not close(got, want, 1e-9, 0):
                                 ctx.fail('C07/expected-formula', 'expected CLs differs from Phi(-N-sqrt(qA))/Phi(-N)', dict(inp, N=N), got, float(want))
+                        elif -sA > N:
+                            # clipped base, band point below the cutoff: the expected statistic is the cutoff (q = 0), for every statistic:
+                            # CLsb = Phi(0) = 1/2, CLb = Phi(sqrt(qA))
+                            want = 0.5 / norm.cdf(sA)
+                            if not close(got, want, 1e-9, 0):
+                                ctx.fail('C07/expected-formula-clipped', 'expected CLs of a clipped band point differs from (1/2)/Phi(sqrt(qA))', dict(inp, N=N), got, float(want))
                     if any(band[k] > band[k + 1] * (1 + 1e-12) for k in range(4)):
                         ctx.fail('C07/band-monotone', 'five-point expected band is not non-decreasing from -2 to +2 sigma', inp, band)
                     if base == 'clipped_normal':
-                        if any(e < -sA for e in ets):
-                            ctx.fail('C07/clipped-negative-q', 'an expected value corresponds to a negative test statistic', inp, ets, -sA)
+                        if any(e < -sA * (1 + 1e-12) for e in ets_i):
+                            ctx.fail('C07/clipped-negative-q', 'an expected value corresponds to a negative test statistic', inp, ets_i, -sA)
                     if q > 0 and q != qA:
                         ctx.nontrivial((ts, base, q, qA))
             ctx.sample({'backend': bk, 'example': {'ts': ts, 'base': base, 'q': q, 'qA': qA, 'CLsb,CLb,CLs': p_i, 'expected_CLs': exp_i[2]}})
